@@ -9,50 +9,50 @@ import (
 	"github.com/decred/dcrd/dcrec/secp256k1/v4"
 )
 
-func Native() bool                  { return false }
-func U64(label string) uint64       { return 0 }
-func I64(label string) int64        { return 0 }
-func U32(label string) uint32       { return 0 }
-func Bool(label string) bool        { return false }
+func Native() bool                     { return false }
+func U64(label string) uint64          { return 0 }
+func I64(label string) int64           { return 0 }
+func U32(label string) uint32          { return 0 }
+func Bool(label string) bool           { return false }
 func Int(label string, lo, hi int) int { return lo }
-func Str(label string) string       { return "" }
-func Assume(c bool)                 {}
-func Assert(c bool, label string)   {}
-func Reach(label string)            {}
-func And(xs ...bool) bool           { return false }
-func Or(xs ...bool) bool            { return false }
-func Not(x bool) bool               { return false }
-func Implies(a, b bool) bool        { return false }
+func Str(label string) string          { return "" }
+func Assume(c bool)                    {}
+func Assert(c bool, label string)      {}
+func Reach(label string)               {}
+func And(xs ...bool) bool              { return false }
+func Or(xs ...bool) bool               { return false }
+func Not(x bool) bool                  { return false }
+func Implies(a, b bool) bool           { return false }
 
 // Z is a mathematical (unbounded) integer used by oracles so that the reference cannot wrap.
 type Z struct{ opaque int }
 
-func ZU(x uint64) Z          { return Z{} }
-func ZI(x int64) Z           { return Z{} }
-func ZAdd(a, b Z) Z          { return Z{} }
-func ZSub(a, b Z) Z          { return Z{} }
-func ZMul(a, b Z) Z          { return Z{} }
+func ZU(x uint64) Z            { return Z{} }
+func ZI(x int64) Z             { return Z{} }
+func ZAdd(a, b Z) Z            { return Z{} }
+func ZSub(a, b Z) Z            { return Z{} }
+func ZMul(a, b Z) Z            { return Z{} }
 func ZCeilDiv(a Z, d uint64) Z { return Z{} }
-func ZDiv(a Z, d uint64) Z   { return Z{} }
-func ZLe(a, b Z) bool        { return false }
-func ZLt(a, b Z) bool        { return false }
-func ZEq(a, b Z) bool        { return false }
-func ZIte(c bool, a, b Z) Z  { return Z{} }
+func ZDiv(a Z, d uint64) Z     { return Z{} }
+func ZLe(a, b Z) bool          { return false }
+func ZLt(a, b Z) bool          { return false }
+func ZEq(a, b Z) bool          { return false }
+func ZIte(c bool, a, b Z) Z    { return Z{} }
 
 // crypto objects (constructive: DESIGN.md section 4.2)
-func Priv(label string) *secp256k1.PrivateKey { return nil }
-func SamePriv(a, b *secp256k1.PrivateKey) bool { return false }
-func SamePub(a, b *secp256k1.PublicKey) bool   { return false }
-func BytesEq(a, b []byte) bool                 { return false }
+func Priv(label string) *secp256k1.PrivateKey                                         { return nil }
+func SamePriv(a, b *secp256k1.PrivateKey) bool                                        { return false }
+func SamePub(a, b *secp256k1.PublicKey) bool                                          { return false }
+func BytesEq(a, b []byte) bool                                                        { return false }
 func SchnorrSign(p *secp256k1.PrivateKey, hash []byte, aux uint64) *schnorr.Signature { return nil }
 
 // database
-func SqlDB(dir string) *sql.DB                 { return nil }
-func SqlSymRows(db *sql.DB, table string, n int) {}
-func SqlCount(db *sql.DB, table string, col string, val string) Z { return Z{} }
-func SqlSnapshot(db *sql.DB) int               { return 0 }
-func SqlSame(db *sql.DB, a, b int) bool        { return false }
-func TempDir() string                          { return "" }
+func SqlDB(dir string) *sql.DB                                     { return nil }
+func SqlSymRows(db *sql.DB, table string, n int)                   {}
+func SqlCount(db *sql.DB, table string, col string, val string) Z  { return Z{} }
+func SqlSnapshot(db *sql.DB) int                                   { return 0 }
+func SqlSame(db *sql.DB, a, b int) bool                            { return false }
+func TempDir() string                                              { return "" }
 func SqlRowPresent(db *sql.DB, table string, i int) bool           { return false }
 func SqlRowStr(db *sql.DB, table string, i int, col string) string { return "" }
 func SqlRowU64(db *sql.DB, table string, i int, col string) uint64 { return 0 }
@@ -67,8 +67,8 @@ func PickPriv(idx uint64, options ...*secp256k1.PrivateKey) *secp256k1.PrivateKe
 func UF64(name string, x uint64) uint64 { return 0 }
 
 // threads / crash points
-func Go(f func())        {}
-func Join(preempt int)   {}
+func Go(f func())            {}
+func Join(preempt int)       {}
 func CrashRun(f func()) bool { return false }
 func FaultRun(f func()) bool { return false }
 func HitAt() string          { return "" }
